@@ -269,6 +269,43 @@ pub fn run_hair_px(l: &[i128]) -> Vec<i128> {
             }
         }
     }
+    // dots: a contour all of whose points coincide is, with a round or square cap, a dot of half a pixel around the point (the
+    // cap extension on both sides): it needs a touched pixel near it like any other point of the path.  Not judged: round caps
+    // without anti-aliasing -- the hairline code extends a round cap by pi/8 (as Skia does), the dot is then 0.785 px long
+    // and, like every aliased segment shorter than a pixel (see the gap rule above), may fall between two pixel centres
+    if cap_ext > 0.0 && (aa || cap == LineCap::Square) {
+        for c in &cs {
+            let (px, py) = (c[0].fx, c[0].fy);
+            if c.len() < 2 || !c.iter().all(|q| q.fx == px && q.fy == py) {
+                continue;
+            }
+            if !(px >= 1.5 && py >= 1.5 && px < w as f64 - 1.5 && py < h as f64 - 1.5) {
+                continue;
+            }
+            let (cx, cy) = (px.floor() as i64, py.floor() as i64);
+            let mut ok = false;
+            for dy in -2..=2i64 {
+                for dx in -2..=2i64 {
+                    let (qx, qy) = (cx + dx, cy + dy);
+                    if qx < 0 || qy < 0 || qx >= w as i64 || qy >= h as i64 {
+                        continue;
+                    }
+                    if alpha[(qy as u32 * w + qx as u32) as usize] != 0 {
+                        let d = ((qx as f64 + 0.5 - px).powi(2) + (qy as f64 + 0.5 - py).powi(2)).sqrt();
+                        if d <= reach {
+                            ok = true;
+                        }
+                    }
+                }
+            }
+            if !ok {
+                gaps += 1;
+                if first[0] < 0 {
+                    first = [px as i128, py as i128, 3];
+                }
+            }
+        }
+    }
     // independence from what the path does outside: draw on a 3x pixmap with the path shifted, crop, compare
     let mut dep = 0i128;
     let mut dep2 = 0i128;
